@@ -693,7 +693,7 @@ def rule_emitter_cap(ctx: Ctx) -> None:
         guarded = False
         p_ = parent(a)
         while p_ is not None and p_ is not fn:
-            if isinstance(p_, ast.If) and any(a is x for b_ in p_.body for x in ast.walk(b_)):
+            if isinstance(p_, ast.If) and any(a is x for b_ in (p_.body + p_.orelse) for x in ast.walk(b_)):
                 names = {x.id for x in ast.walk(p_.test) if isinstance(x, ast.Name)}
                 if ne in names and ctr in names:
                     guarded = True
